@@ -1072,9 +1072,11 @@ def origins(fn, operand_or_local, through_fields=True, extra_transparent=None, f
     seen = set()
     work = []
 
-    def push_operand(o):
+    STD_ENUMS = ('Ok', 'Err', 'Some', 'None', 'Ready', 'Pending', 'Continue', 'Break')
+
+    def push_operand(o, want=()):
         if isinstance(o, int):
-            work.append(o)
+            work.append((o, want))
             return
         k = op_const(o)
         if k is not None:
@@ -1083,9 +1085,9 @@ def origins(fn, operand_or_local, through_fields=True, extra_transparent=None, f
             return
         p = op_place(o)
         if p is not None:
-            push_place(p)
+            push_place(p, want)
 
-    def push_place(p):
+    def push_place(p, inherit=()):
         if stop_fields and p[1]:
             # last named field of an in-crate ADT on the access path: report the field, not the base
             idxs = [i for i, e in enumerate(p[1]) if isinstance(e, dict) and 'f' in e and e['n'] and not e['n'].isdigit()]
@@ -1107,17 +1109,35 @@ def origins(fn, operand_or_local, through_fields=True, extra_transparent=None, f
         if proj and isinstance(proj[0], dict) and 'f' in proj[0] and 'v' not in proj[0]:
             ds = [x for x in fn.defs().get(p[0], []) if x[2] != 'partial']
             if len(ds) == 1 and ds[0][2] == 'assign' and ds[0][3]['k'] == 'agg' and ds[0][3].get('ak') == 'tuple' and proj[0]['f'] < len(ds[0][3]['ops']):
-                push_operand(ds[0][3]['ops'][proj[0]['f']])
+                push_operand(ds[0][3]['ops'][proj[0]['f']], inherit if len(proj) == 1 else ())
                 return
-        work.append(p[0])
+        # `((x as Ok).0 ..)`: only definitions of `x` that build that variant can be the source (variant-precise for the std
+        # enums - after a helper was inlined its Ok and Err results meet in one local)
+        want = ()
+        if proj and all(isinstance(e, dict) for e in proj):
+            names, okp = [], True
+            k = 0
+            while k < len(proj):
+                e = proj[k]
+                if 'v' in e and e.get('n') in STD_ENUMS and k + 1 < len(proj) and 'f' in proj[k + 1] and 'v' not in proj[k + 1]:
+                    names.append(e['n'])
+                    k += 2
+                else:
+                    okp = False
+                    break
+            if okp and names:
+                want = tuple(names) + tuple(inherit)
+        elif not proj:
+            want = tuple(inherit)
+        work.append((p[0], want))
 
     push_operand(operand_or_local)
     n = 0
     while work:
-        l = work.pop()
-        if l in seen:
+        l, want = work.pop()
+        if (l, want) in seen or (want and (l, ()) in seen):
             continue
-        seen.add(l)
+        seen.add((l, want))
         n += 1
         if n > max_nodes:
             break
@@ -1142,8 +1162,26 @@ def origins(fn, operand_or_local, through_fields=True, extra_transparent=None, f
                 if ti is not None and not isinstance(ti, tuple):
                     ti = (ti,)
                 if ti is not None and all(x < len(c.args) for x in ti):
+                    w2 = ()
+                    if want:
+                        if c.name == 'from_residual':
+                            if want[0] in ('Ok', 'Some', 'Continue'):
+                                continue      # `?` rebuilds an Err / None only
+                            w2 = ()
+                        elif c.name == 'branch':
+                            a0 = op_local(c.args[0])
+                            opt = a0 is not None and fn.locals[a0]['s'].startswith('std::option::Option')
+                            if want[0] == 'Continue':
+                                w2 = (('Some' if opt else 'Ok'),) + want[1:]
+                            elif want[0] == 'Break':
+                                rest = want[1:]
+                                if rest and rest[0] in ('Err', 'None'):
+                                    rest = rest[1:]
+                                w2 = (('None' if opt else 'Err'),) + rest
+                        elif c.name in ('with_context', 'context', 'map_err', 'clone', 'as_ref', 'as_mut', 'as_deref', 'as_deref_mut', 'borrow', 'borrow_mut', 'deref', 'deref_mut', 'into_inner', 'to_owned'):
+                            w2 = want
                     for x in ti:
-                        push_operand(c.args[x])
+                        push_operand(c.args[x], w2)
                 else:
                     og = Origin('call', fn, bb, c)
                     out[og.key()] = og
@@ -1157,15 +1195,18 @@ def origins(fn, operand_or_local, through_fields=True, extra_transparent=None, f
                 r = payload
                 k = r['k']
                 if k == 'use':
-                    push_operand(r['o'])
+                    push_operand(r['o'], want)
                 elif k in ('ref', 'rawptr'):
-                    push_place(r['p'])
+                    push_place(r['p'], want)
                 elif k == 'cast':
-                    push_operand(r['o'])
+                    push_operand(r['o'], want)
                 elif k == 'agg':
                     ak = r.get('ak')
+                    std_enum = ak == 'adt' and r.get('adt') in ('std::option::Option', 'std::result::Result', 'std::task::Poll', 'std::ops::ControlFlow')
+                    if std_enum and want and r.get('variant') and r.get('variant') != want[0]:
+                        continue      # another variant than the one the reader unwraps
                     if ak == 'adt' and r.get('adt') in ('std::option::Option', 'std::result::Result', 'std::task::Poll') and r['ops']:
-                        push_operand(r['ops'][0])
+                        push_operand(r['ops'][0], want[1:] if want else ())
                     else:
                         og = Origin('agg', fn, bb, r)
                         out[og.key()] = og
@@ -2120,7 +2161,7 @@ def _whole_local(o):
     return p[0] if p is not None and not p[1] else None
 
 
-def reach_from_cp(f, starts, avoid_exit=(), avoid_enter=(), max_states=20000):
+def reach_from_cp(f, starts, avoid_exit=(), avoid_enter=(), max_states=20000, _ret_envs=None):
     """Fn.reach_from with a little path sensitivity: integer / bool constants assigned to whole locals (`flag = true`, copies of
     such locals, `Not` of them) are tracked along each path, and a switch on a local whose value is known on that path takes
     only the matching edge.  Decides the correlated-condition idiom
@@ -2135,6 +2176,7 @@ def reach_from_cp(f, starts, avoid_exit=(), avoid_enter=(), max_states=20000):
             t = f.blocks[i]['t']
             if t['k'] == 'switch' and _whole_local(t['o']) is not None:
                 rel.add(_whole_local(t['o']))
+        rel.add(0)      # the returned value: an exit that forwards a known `Err` is not an ok exit (ok_exits_cp)
         changed = True
         while changed:
             changed = False
@@ -2260,9 +2302,29 @@ def reach_from_cp(f, starts, avoid_exit=(), avoid_enter=(), max_states=20000):
                     tg = t['otherwise']
                 succ = [tg] if tg in f.succ[bb] else []
         env2 = frozenset(e.items())
+        if _ret_envs is not None and bb in _ret_envs:
+            _ret_envs[bb].append(dict(e))
         for x in succ:
             if x not in avoid_enter:
                 work.append((x, env2))
+    return out
+
+
+def ok_exits_cp(f, starts, avoid_exit=(), avoid_enter=()):
+    """ok / forwarding exits of `f` reachable from `starts` on which the returned value is not known to be an `Err` / `None`
+    (path-sensitive: the forwarded result of an inlined helper that took its `?` exit is an error exit)"""
+    envs = {bb: [] for (bb, k, _p) in exit_defs(f)}
+    reach = reach_from_cp(f, starts, avoid_exit=avoid_exit, avoid_enter=avoid_enter, _ret_envs=envs)
+    out = []
+    for (bb, k, _p) in exit_defs(f):
+        if k not in ('ok', 'fwd', 'val') or bb not in reach:
+            continue
+        if k == 'fwd' and bb in envs and envs[bb]:
+            ty = f.locals[0]['s']
+            errv = 1 if ty.startswith('std::result::Result') else (0 if ty.startswith('std::option::Option') else None)
+            if errv is not None and all(isinstance(ev.get(0), tuple) and ev[0][1] == errv for ev in envs[bb]):
+                continue
+        out.append(bb)
     return out
 
 
